@@ -52,13 +52,13 @@ def html_of(text, ov, src):
     return publish_string(text, source_path=src, parser=Parser(), writer_name="html5", settings_overrides=so)
 
 
-def check(col, names, text, raw_enabled, file_ins, d):
+def check(col, names, text, raw_enabled, file_ins, d, suppress=()):
     from docutils import nodes
 
-    ov = {"raw_enabled": raw_enabled, "file_insertion_enabled": file_ins,
+    ov = {"raw_enabled": raw_enabled, "file_insertion_enabled": file_ins, "myst_suppress_warnings": list(suppress),
           "myst_enable_extensions": ["strikethrough", "colon_fence"], "doctitle_xform": False}
     src = os.path.join(d, "index.md")
-    case = {"constructs": list(names), "raw_enabled": raw_enabled, "file_insertion_enabled": file_ins, "text": text}
+    case = {"constructs": list(names), "raw_enabled": raw_enabled, "file_insertion_enabled": file_ins, "text": text, "suppress": list(suppress)}
     try:
         doc, lines = parse(text, ov, source_path=src)
         html = html_of(text, ov, src)
@@ -75,7 +75,7 @@ def check(col, names, text, raw_enabled, file_ins, d):
             if tag in body and tag.strip() not in ("<br />",):
                 col.fail("C20.raw/output", case, f"raw payload {tag!r} reached the written output", function="myst_parser.parsers.docutils_:Parser.parse")
         nraw_expected = sum(1 for n in names if n in RAW_CONSTRUCTS)
-        if nraw_expected and not any("Raw content disabled" in ln or "disabled" in ln.lower() for ln in lines):
+        if nraw_expected and not suppress and not any("Raw content disabled" in ln or "disabled" in ln.lower() for ln in lines):
             col.fail("C20.raw/reported", case, f"no refusal warning: {lines!r}")
     if not file_ins:
         if F in doc.astext() or F in html:
@@ -103,9 +103,10 @@ def run(tier, seed, extra):
         allc.update({k: v.replace("@ABS@", absf) for k, v in FILE_CONSTRUCTS.items()})
         for name, snippet in allc.items():
             for raw_enabled, file_ins in itertools.product((True, False), repeat=2):
-                col.case((name, raw_enabled, file_ins))
-                check(col, [name], snippet + "\ntailmarker\n", raw_enabled, file_ins, d)
-                cnt += 1
+                for sup in ((), ("myst",), ("myst.raw_disabled", "ref", "docutils")):
+                    col.case((name, raw_enabled, file_ins, sup))
+                    check(col, [name], snippet + "\ntailmarker\n", raw_enabled, file_ins, d, sup)
+                    cnt += 1
         for _ in range(40 if tier == "quick" else 1500):
             names = rng.sample(sorted(allc), rng.randint(2, 4))
             text = "\n".join(allc[n] for n in names) + "\ntailmarker\n"
@@ -130,7 +131,7 @@ def replay(col, case, check_name):
         import re
 
         text = re.sub(r"/tmp/c20-[^/]+/", d + "/", case["text"])
-        check(col, case["constructs"], text, case["raw_enabled"], case["file_insertion_enabled"], d)
+        check(col, case["constructs"], text, case["raw_enabled"], case["file_insertion_enabled"], d, tuple(case.get("suppress") or ()))
     finally:
         import shutil
 
